@@ -84,13 +84,14 @@ Print Assumptions reselected_container_is_fresh.
    current value; it is evaluated at the switch time iff it armed itself in
    start or some held input is valid. *)
 Theorem fresh_instance_sees_held_inputs : forall sp br id t srcs,
-  t < MAX_DT ->
+  0 <= b_sd (br_body br) -> t + b_sd (br_body br) < MAX_DT ->
   let i0 := fst (inst_start t (fresh_inst br id t)) in
   i_state i0 = 0 /\ i_id i0 = id /\ i_br i0 = br /\ i_samp i0 = t /\
-  events (i_sch i0) = (if b_sos (br_body br) then [(t, 0)] else []) /\
+  events (i_sch i0) = (if b_sos (br_body br) then [(t + b_sd (br_body br), 0)] else []) /\
   views sp t srcs i0 = map (fun s => mkIv (is_some (fst s)) true (match fst s with Some v => v | None => 0 end))
                            (bound_srcs sp br srcs) /\
-  due t (views sp t srcs i0) i0 = b_sos (br_body br) || existsb (fun s => is_some (fst s)) (bound_srcs sp br srcs).
+  due t (views sp t srcs i0) i0 =
+    (b_sos (br_body br) && (b_sd (br_body br) =? 0)) || existsb (fun s => is_some (fst s)) (bound_srcs sp br srcs).
 Proof. exact SwitchFacts.fresh_sees_held. Qed.
 Print Assumptions fresh_instance_sees_held_inputs.
 
@@ -171,7 +172,7 @@ Print Assumptions reachable_errors.
 
 (* The boundedness hypothesis holds of every case the correspondence check runs. *)
 Theorem harness_cases_are_covered : forall D d,
-  1 <= D -> Forall (fun p => p_d p <= D) (d_tab d) -> sp_bounded D (spec_of d).
+  1 <= D -> Forall (fun p => p_d p <= D /\ 0 <= p_sd p <= D) (d_tab d) -> sp_bounded D (spec_of d).
 Proof. exact SwitchFacts.spec_of_bounded. Qed.
 Print Assumptions harness_cases_are_covered.
 
@@ -180,9 +181,9 @@ Print Assumptions harness_cases_are_covered.
 (* ------------------------------------------------------------------ *)
 (* key 1 -> a running sum, key 2 -> a timer body (arms now+3 on every tick, emits
    when it fires), default -> a self-scheduling ticker taking the key. *)
-Definition ex_acc    : bparams := mkBP false true false false false 1 0 1 0 1 0 0 false.
-Definition ex_timer  : bparams := mkBP false false true true false 3 100 1 0 1 0 0 false.
-Definition ex_ticker : bparams := mkBP true true true false true 2 200 1 1 0 0 1 false.
+Definition ex_acc    : bparams := mkBP false true false false false 1 0 1 0 1 0 0 false 0.
+Definition ex_timer  : bparams := mkBP false false true true false 3 100 1 0 1 0 0 false 0.
+Definition ex_ticker : bparams := mkBP true true true false true 2 200 1 1 0 0 1 false 0.
 Definition ex_sp : swspec :=
   mkSw 1 false [(1, mkBr false (table_body ex_acc)); (2, mkBr false (table_body ex_timer))]
        (Some (mkBr true (table_body ex_ticker))) false.
@@ -195,7 +196,9 @@ Definition ex_h : hist :=
 
 Example ex_bounded : sp_bounded 3 ex_sp /\ sp_bounded 3 ex_sp_nodefault.
 Proof.
-  split; apply sp_bounded_intro; simpl; repeat constructor; simpl; try (apply table_bounded; simpl; lia).
+  split; apply sp_bounded_intro; simpl;
+    try (repeat (apply Forall_cons; [apply table_bounded; simpl; lia|]); apply Forall_nil);
+    try (apply table_bounded; simpl; lia); exact I.
 Qed.
 
 (* the hypotheses of theorems 2, 4, 5 are met: after 5 cycles the third selection
@@ -227,7 +230,7 @@ Proof. vm_compute. repeat split; reflexivity. Qed.
    while the set is {1,2,3} and the held input is 3.  The same branch graph is rebuilt; the
    hypotheses of theorem 2b hold there, the output at 4 is {3} with removed {1,2} (3 is
    re-published, so it is in neither added nor removed), and 4 joins at 5. *)
-Definition ex_pub : bparams := mkBP false true false false false 1 0 0 1 0 0 0 false.
+Definition ex_pub : bparams := mkBP false true false false false 1 0 0 1 0 0 0 false 0.
 Definition ex_set_sp : swspec := mkSw 1 true [(1, mkBr false (table_body ex_pub))] None true.
 Definition ex_set_h : hist := [(0, 1, 1); (1, 1, 1); (1, 2, 2); (1, 3, 3); (0, 4, 1); (1, 5, 4)].
 Example ex_same_branch_rebuilt :
@@ -248,3 +251,15 @@ Example ex_unmatched :
   m_err (mirror_cycle ex_sp_nodefault ex_h (mirror_next ex_sp_nodefault ex_h m) m) = 2 /\
   m_err (mirror_run ex_sp_nodefault ex_h 1 20 30) = 2.
 Proof. vm_compute. repeat split; try discriminate; reflexivity. Qed.
+
+(* a body whose START hook arms a LATER timer (now + 3) and which reads a held input: it is
+   evaluated in the selection cycle (3) on the sampled input, and again when its timer fires (6) *)
+Definition ex_startarm : bparams := mkBP true true true false false 1 0 0 1 0 0 0 false 3.
+Definition ex_sa_sp : swspec := mkSw 1 false [(1, mkBr false (table_body ex_startarm))] None false.
+Example ex_start_armed_timer_does_not_hide_sampling :
+  rev (outs_of (m_log (mirror_run ex_sa_sp [(1, 1, 5); (0, 3, 1)] 1 10 30))) = [[20; 3; 1; 1; 5]; [20; 6; 1; 1; 5]] /\
+  sp_bounded 3 ex_sa_sp.
+Proof.
+  split; [vm_compute; reflexivity|].
+  apply sp_bounded_intro; simpl; [repeat (apply Forall_cons; [apply table_bounded; simpl; lia|]); apply Forall_nil|exact I].
+Qed.
